@@ -37,7 +37,7 @@ fn main() {
     let aux = arg(&args, "--aux").unwrap_or_default();
     // a panic inside a guarded region is reported by the caller; keep the default hook quiet
     std::panic::set_hook(Box::new(|_| {}));
-    let mut rep = Report::new();
+    let mut rep = Report::new(&out);
     match cmd {
         "probe" => {
             let re = regress::Regex::with_flags(&args[3], args[2].as_str()).unwrap();
@@ -97,5 +97,5 @@ fn main() {
         }
     }
     rep.write(&out).expect("write report");
-    println!("{} requests={} evaluations={} violations={}", cmd, rep.req.len(), rep.evaluations, rep.violations.len());
+    println!("{} requests={} evaluations={} violations={}", cmd, rep.nreq, rep.evaluations, rep.violations.len());
 }
